@@ -6,6 +6,7 @@ per-module sections and findings F-gen-1, F-gen-2, F-gen-3).
 -/
 import Irismod.Proofs.MtGenesis
 import Irismod.Props.C15
+import Irismod.Proofs.RecordGenesis
 
 namespace Irismod.Props.C12
 open Irismod
@@ -101,5 +102,101 @@ def mtDemoCheck : Bool :=
   | _, _ => false
 
 end mt
+
+/-! ## record (finding F-gen-3: ids are re-derived on import) -/
+section record
+open Irismod.Record Irismod.RecordGenesis Irismod.Spec.C12.Record Irismod.Proofs.RecordGenesis
+open Irismod.Proofs.GenesisList
+
+/-- the export of every reachable record store passes `ValidateGenesis` -/
+theorem record_export_validates (ops : List Op) : validateGenesis (exportGenesis (run {} ops)) = .ok () :=
+  validate_export _ (recsOk_run ops {} (by intro e he; simp at he))
+
+/-- **C12/record, the true part**: the export of every reachable store imports without panic;
+the imported store holds exactly the exported records — tx hash, contents, creator — in export
+order, keyed by ids re-derived with fresh counters 0, 1, 2, … (provided SHA-256 does not
+collide on those); as a multiset the records are the exporting chain's records, and the
+counter equals their number. Only the ids (and the iteration order that follows them) change. -/
+theorem record_import_partial (ops : List Op)
+    (hnc : (newIds 0 (exportGenesis (run {} ops)).records).Nodup) :
+    ∃ s', importGenesis (exportGenesis (run {} ops)) = .ok s' ∧
+      s'.recs = (newIds 0 (exportGenesis (run {} ops)).records).zip (exportGenesis (run {} ops)).records ∧
+      (s'.recs.map (·.2)) = (exportGenesis (run {} ops)).records ∧
+      (s'.recs.map (·.2)).Perm ((run {} ops).recs.map (·.2)) ∧
+      (exportGenesis s').records.Perm (exportGenesis (run {} ops)).records ∧
+      s'.counter = UInt32.ofNat (run {} ops).recs.length := by
+  refine ⟨importFrom {} (exportGenesis (run {} ops)).records, ?_, ?_, ?_, ?_, ?_, ?_⟩
+  · unfold importGenesis; rw [record_export_validates ops]
+  · exact importFrom_empty_recs _ hnc
+  · exact importFrom_empty_snd _ hnc
+  · rw [importFrom_empty_snd _ hnc]; exact export_perm _
+  · refine (export_perm _).trans ?_
+    rw [importFrom_empty_snd _ hnc]
+  · rw [importFrom_counter, export_length]
+    show (0 : UInt32) + _ = _
+    rw [UInt32.zero_add]
+
+/-- the id `AddRecord` derives for record `r` when the counter is `c` -/
+abbrev idOf (r : Rec) (c : UInt32) : Id := idOfPre (preimage r c)
+
+/-- **the mechanism of F-gen-3**, for any two records: if the store order of the ids
+(byte order of two SHA-256 values) is the reverse of the creation order, then after
+export → import the first record's id is unknown to the importing chain (unless SHA-256
+collides on the re-derived ids), although the exporting chain answered it. -/
+theorem record_two_swap (r0 r1 : Rec)
+    (hlt : idLt (idOf r0 0) (idOf r1 1) = false)
+    (h0 : idOf r0 0 ≠ idOf r1 0) (h1 : idOf r0 0 ≠ idOf r0 1)
+    (hv : validateGenesis { records := [r1, r0] } = .ok ()) :
+    getRecord { recs := [(idOf r0 0, r0), (idOf r1 1, r1)], counter := 2 } (idOf r0 0) = some r0 ∧
+    ∃ s', importGenesis (exportGenesis { recs := [(idOf r0 0, r0), (idOf r1 1, r1)], counter := 2 }) = .ok s' ∧
+      getRecord s' (idOf r0 0) = none := by
+  constructor
+  · simp [getRecord, AMap.get?]
+  · have hexp : exportGenesis { recs := [(idOf r0 0, r0), (idOf r1 1, r1)], counter := 2 } = { records := [r1, r0] } := by
+      simp [exportGenesis, sortById, insId, hlt]
+    rw [hexp]
+    refine ⟨importFrom {} [r1, r0], ?_, ?_⟩
+    · unfold importGenesis; rw [hv]
+    · show AMap.get? (importFrom {} [r1, r0]).recs (idOf r0 0) = none
+      simp only [importFrom, addRecord]
+      rw [AMap.get?_set_other _ _ _ _ (Ne.symm _), AMap.get?_set_other _ _ _ _ (Ne.symm _)]
+      · rfl
+      · exact h0
+      · exact h1
+
+theorem run_two (b0 b1 : ByteArray) (m0 m1 : Msg) (h0 : msgOk m0 = true) (h1 : msgOk m1 = true) :
+    run {} [.tx b0 [m0], .tx b1 [m1]] = importFrom {} [mkRec (txHashOf b0) m0, mkRec (txHashOf b1) m1] := by
+  simp [run, apply, step, stepTx, h0, h1, createOne, importFrom]
+
+theorem importFrom_two (r0 r1 : Rec) (hne : idOfPre (preimage r0 0) ≠ idOfPre (preimage r1 1)) :
+    importFrom {} [r0, r1] = { recs := [(idOf r0 0, r0), (idOf r1 1, r1)], counter := 2 } := by
+  simp [importFrom, addRecord, AMap.set, hne]
+
+/-- **negation of the full statement by witness** (two transactions creating one record each):
+given the four closed SHA-256 facts `WitnessFacts` (evaluated in `Audit/C12.lean`; the same
+history fails on the real keeper), not every reachable store keeps its ids across
+export → import. -/
+theorem record_roundtrip_fails (hw : WitnessFacts) : ¬ RoundTripAll := by
+  intro H
+  obtain ⟨hne, hlt, h0, h1⟩ := hw
+  obtain ⟨s', hs', hq⟩ := H wOps
+  have hrun : run {} wOps = { recs := [(wI0, wR0), (wI1, wR1)], counter := 2 } := by
+    unfold wOps
+    rw [run_two _ _ _ _ (by decide) (by decide)]
+    exact importFrom_two wR0 wR1 hne
+  obtain ⟨hget, s'', hs'', hnone⟩ := record_two_swap wR0 wR1 hlt h0 h1 (by rfl)
+  have hget : getRecord { recs := [(wI0, wR0), (wI1, wR1)], counter := 2 } wI0 = some wR0 := hget
+  have hnone : getRecord s'' wI0 = none := hnone
+  rw [hrun] at hs' hq
+  have : s' = s'' := by
+    have := hs'.symm.trans hs''
+    cases this; rfl
+  subst this
+  have := hq wI0
+  rw [hnone] at this
+  rw [hget] at this
+  cases this
+
+end record
 
 end Irismod.Props.C12
